@@ -56,6 +56,7 @@ func TestVerifPlain(t *testing.T) {
 			Chunks []string `json:"chunks"`
 			Status []string `json:"status"` /* status / log lines (not Plain), sent after the chunks */
 			Winch  bool     `json:"winch"`  /* run the whole Shell.Do and resize the terminal (SIGWINCH) after every chunk */
+			CtrlJ  string   `json:"ctrl_j"` /* the Ctrl+I source (hex); Ctrl+J shows it without sending it */
 		}
 		if err := json.Unmarshal(sc.Bytes(), &c); nil != err {
 			t.Fatal(err)
@@ -66,13 +67,21 @@ func TestVerifPlain(t *testing.T) {
 		func() {
 			ich := make(chan string, 16)
 			och := make(chan CLine)
-			s, cleanup, err := New(ich, och, "> ", true, nil, "")
+			var gen func() ([]byte, error)
+			if "" != c.CtrlJ {
+				src, _ := hex.DecodeString(c.CtrlJ)
+				gen = func() ([]byte, error) { return src, nil }
+			}
+			s, cleanup, err := New(ich, och, "> ", true, gen, "verif-source")
 			if nil != err {
 				fail = err.Error()
 				return
 			}
 			defer cleanup()
 			ctx, cancel := context.WithCancel(context.Background())
+			if nil != gen {
+				s.pretendInsert()
+			}
 			done := make(chan struct{})
 			if c.Winch {
 				pr, pw, _ := os.Pipe()
